@@ -102,19 +102,19 @@ func GenHistory(r *Rng, o HistOpts) *WriterSpec {
 
 // Stats of a history (for probes and non-triviality rules).
 type HistStats struct {
-	Adds, Writes        int
-	EmptyWrites         int
-	EmptyFirst          bool // an empty Write before any Add
-	EmptyBetween        bool // an empty Write between two non-empty batches
-	EmptyConsecutive    bool // two consecutive empty Writes
-	ExactThenEmpty      bool // a batch of exactly k*page followed by an empty Write
-	PendingAtClose      int
-	NonEmptyBatches     int
-	MaxChain            int // max pages per column in a batch (ceil(batch/page))
-	NoBatchAtAll        bool
-	BatchGEPage         bool
-	PendingWithBatches  bool
-	PendingNoBatches    bool
+	Adds, Writes       int
+	EmptyWrites        int
+	EmptyFirst         bool // an empty Write before any Add
+	EmptyBetween       bool // an empty Write between two non-empty batches
+	EmptyConsecutive   bool // two consecutive empty Writes
+	ExactThenEmpty     bool // a batch of exactly k*page followed by an empty Write
+	PendingAtClose     int
+	NonEmptyBatches    int
+	MaxChain           int // max pages per column in a batch (ceil(batch/page))
+	NoBatchAtAll       bool
+	BatchGEPage        bool
+	PendingWithBatches bool
+	PendingNoBatches   bool
 }
 
 func (w *WriterSpec) Stats() HistStats {
